@@ -19,7 +19,7 @@ Sub-checks
   dynamics         TimeEvolution(w, t): Fock amplitudes only acquire the phases exp(-i 2 pi c w t n), additive in t, total
                    photon-number distribution conserved inside Ul^T .. Ul; gaussian backend == refsim rotation
   duschinsky       utils.duschinsky: U = Lf^T Li, delta = l^-1 d with hand-typed constants, q_f = U q_i + d
-  marginals        utils.marginals vs thewalrus.probabilities of the reduced reference state; utils.prob == frequency
+  marginals        utils.marginals vs the oracle's own photon statistics of the reduced reference state; utils.prob == frequency
   samplers         vibronic.sample / dynamics.sample_* : shape, non-negative integers, photon-number bookkeeping that
                    holds deterministically (seeded numpy); no statistics
 """
@@ -43,19 +43,26 @@ RULE = ("Hypothesis-generated symmetric real matrices on 2..5 modes (unweighted/
         "(dynamics); distinct = distinct JSON")
 ASSUMPTIONS = [
     "finite differences: central, steps h and h/2 with h=2e-3, Richardson extrapolated; gradients must agree to "
-    "1e-6*(1+max|g|) (measured on the unchanged tree: < 2e-9), jacobians to 1e-8*(1+max|J|)",
+    "1e-6*(1+max|g|) (unchanged tree, 5000 cases: <= 1.1e-8), jacobians to 1e-8*(1+max|J|) (measured 4e-13)",
     "threshold-mode gradients are not compared (the formula is approximate there, excluded by the property text)",
     "A_to_cov(A) is compared with the refsim state of A (squeezers -atanh(lambda_i), interferometer of eigenvectors) up to "
-    "ONE global phase rotation of all modes: the repo (and its own unit test) returns the state rotated by pi/4, which has "
-    "identical photon statistics; N = <a^dag a> must agree exactly, M = <a a> up to a unit complex factor",
-    "complex adjacency matrices are outside the domain (A_to_cov yields a complex matrix, thewalrus rejects it)",
-    "thewalrus.quantum.probabilities is trusted as Fock representation of a Gaussian state; the pure-state formula "
-    "sqrt(det(1-A^2)) haf(A_n)^2/n! is evaluated with the oracle's own recursive hafnian",
-    "tolerances: probabilities 1e-9 absolute (thewalrus.probabilities 1e-8), means 1e-8 relative, "
-    "n_mean(0) vs request 1e-6 relative (thewalrus root finder, measured < 1e-9)",
-    "physical constants typed by hand (SI 2019 exact h, c, k; CODATA m_u) - agreement demanded to 1e-7 relative",
-    "Monte-Carlo helpers: only the deterministic interval bound and the complete-graph identity, no statistics; "
-    "samplers: only structure and deterministic photon-number bookkeeping",
+    "ONE global phase rotation of all modes: the repo (and its own unit test test_A_to_cov) returns the state rotated by "
+    "pi/4 (thewalrus Amat of it is -iA), which has identical photon statistics; N = <a^dag a> must agree, M = <a a> up to "
+    "one unit complex factor (1e-8; measured 3e-15)",
+    "complex adjacency matrices are outside the domain (A_to_cov yields a complex matrix, thewalrus rejects it with ValueError)",
+    "parameter vectors are scaled down until the largest singular value of A(theta) is <= 0.9 (the docstrings require <= 1)",
+    "reference probabilities: pure states sqrt(det(1-A^2)) haf(A_n)^2/n! with the oracle's own recursive hafnian and "
+    "thewalrus.quantum.probabilities (state-vector path) of the refsim state; mixed/displaced states: own loop-hafnian "
+    "formula derived from the Husimi function (self-tested against thermal/Poisson/squeezed closed forms and thewalrus); "
+    "thewalrus.probabilities is NOT used for nearly pure mixed states (it treats purity > 1-1e-5 as pure)",
+    "tolerances: probabilities 1e-9 absolute (measured <= 3e-15), similarity 1e-8 (3e-12), marginals 5e-8 (5e-10), means 1e-8 "
+    "relative (3e-15), n_mean(0) and A_init vs request 1e-6 relative (thewalrus root finder, measured 1e-11), costs 1e-7 (1e-12), "
+    "chemistry relations 1e-9..1e-7 (measured <= 6e-14)",
+    "physical constants typed by hand (SI 2019 exact h, c, k; CODATA 2022 m_u) - agreement demanded to 1e-7 relative",
+    "Monte-Carlo helpers: only the deterministic interval bound cardinality*[min p, max p] and the complete-graph identity, "
+    "no statistics; samplers: only structure and photon-number bookkeeping that holds with certainty (seeded numpy)",
+    "prob_event_exact on an EMPTY event (photon_number > modes * max_count_per_mode) raising ValueError is treated as a "
+    "rejection (event_to_sample documents a ValueError for it); a non-empty event must be computed",
 ]
 REQUIRED_LABELS = {"all": ["kl_grad", "stochastic_grad", "jacobian", "prob_click_norm", "prob_pnr", "vibronic", "dynamics",
                            "emb:Exp", "emb:ExpFeatures", "duschinsky", "marginals", "similarity"]}
@@ -1301,7 +1308,7 @@ SUBS = [
     Sub("duschinsky", check=check_dus, strategy=lambda ctx: dus_case(), examples={"quick": 400, "thorough": 4000},
         shards={"quick": 1, "thorough": 4}, rule="utils.duschinsky vs definitions with hand-typed constants"),
     Sub("marginals", check=check_marg, strategy=lambda ctx: marg_case(), examples={"quick": 300, "thorough": 3000},
-        shards={"quick": 1, "thorough": 8}, rule="utils.marginals vs thewalrus.probabilities of reduced refsim states; utils.prob"),
+        shards={"quick": 1, "thorough": 8}, rule="utils.marginals vs own loop-hafnian photon statistics of reduced refsim states; utils.prob"),
     Sub("samplers", check=check_samp, strategy=lambda ctx: samp_case(), examples={"quick": 90, "thorough": 900},
         shards={"quick": 1, "thorough": 8}, rule="structure of vibronic.sample / dynamics.sample_* outputs, deterministic photon bookkeeping"),
 ]
@@ -1314,5 +1321,5 @@ MANIFEST = {
              "model (own hafnian, inclusion-exclusion over vacuum probabilities, thewalrus.probabilities of the refsim state), means with "
              "the reference state, gbs_params/VibronicTransition/TimeEvolution/duschinsky with their documented defining relations. "
              "Exploration only: <= 5 modes, <= 4 photons per probability table, samplers checked structurally."),
-    "note": "trusted: numpy, thewalrus.quantum.probabilities, refsim (self-tested against closed forms)",
+    "note": "trusted: numpy, thewalrus.quantum.probabilities (pure states only), refsim and the oracle's hafnian formulas (self-tested against closed forms)",
 }
